@@ -7,12 +7,15 @@ import GM.Spec.Html
 import GM.Proof.Util
 import GM.Spec.UrlEsc
 import GM.Proof.UrlEscape
+import GM.Proof.UrlDecode
 import GM.Proof.Resolve
 import GM.Proof.LinkRef
 import GM.Proof.Filter
+import GM.Proof.FilterInv
+import GM.Spec.FilterSet
 
 namespace GM.Props.C19
-open GM GM.Spec
+open GM GM.Spec GM.Spec.FilterSet
 
 /-- EscapeHTML output contains no raw `<`, `>`, `"`. -/
 theorem escapeHTML_noRaw (v : Bytes) : noRawSpecial (escapeHTML v) = true := Proof.escapeHTML_noRaw v
@@ -71,6 +74,28 @@ theorem urlEscape_keeps_triples (a b : Bytes) (x y : UInt8) (hx : isHexDigit x =
 /-- non-vacuity + test: `a b%4Fc d` keeps `%4F` -/
 example : isHexDigit 52 = true ∧ isHexDigit 70 = true ∧
     urlEscape (strBytes "a b%4Fc d") false = strBytes "a%20b%4Fc%20d" := by decide +kernel
+
+/-- URLEscape does not change what the URL means: for valid UTF-8 input, percent-decoding the output
+    (`%XX` ↦ byte XX, anything else literal) gives the same bytes as percent-decoding the input. In particular
+    every existing `%XX` keeps its value, a stray `%` becomes `%25`, a space `%20`, never `+`. With reference
+    resolution the same holds relative to the resolved text. -/
+theorem urlEscape_decode (v : Bytes) (hv : validUtf8 v = true) :
+    pctDecode (urlEscape v false) = pctDecode v ∧
+    pctDecode (urlEscape v true) = pctDecode (resolveEntities (resolveNumeric (unescapePunct v))) :=
+  ⟨Proof.urlEscapeRaw_decode v hv,
+   Proof.urlEscapeRaw_decode _
+     (Proof.resolveEntities_valid _ (Proof.resolveNumeric_valid _ (Proof.unescapePunct_valid _ hv)))⟩
+
+/-- non-vacuity + test: "50% é%41" is valid, escapes to "50%25%20%C3%A9%41", both decode to "50% éA" -/
+example : validUtf8 (strBytes "50% é%41") = true ∧
+    urlEscape (strBytes "50% é%41") false = strBytes "50%25%20%C3%A9%41" ∧
+    pctDecode (strBytes "50%25%20%C3%A9%41") = strBytes "50% éA" ∧ pctDecode (strBytes "50% é%41") = strBytes "50% éA" := by
+  decide +kernel
+
+/-- The hypothesis is needed: a truncated UTF-8 sequence at the end loses its leading byte (test; the real
+    URLEscape("a\xe2\x82") = "a\x82"). -/
+example : urlEscape [97, 0xE2, 0x82] false = [97, 0x82] ∧
+    pctDecode (urlEscape [97, 0xE2, 0x82] false) ≠ pctDecode [97, 0xE2, 0x82] := by decide +kernel
 
 /-- URLEscape (without reference resolution) is idempotent: escaping its own output (from either mode)
     changes nothing. -/
@@ -176,17 +201,68 @@ example : lookupFold 0x1E9E = some [115, 115] ∧ lookupFold 0xC4 = some [0xE4] 
 example : toLinkReference (strBytes "Straẞe") = strBytes "strasse" ∧
     toLinkReference (strBytes "ÄK") = strBytes "äk" := by decide +kernel
 
-/-! ### BytesFilter over the slice-with-capacity heap — PARTIAL
+/-! ### BytesFilter over the slice-with-capacity heap
 
-  The full statements (`filter_is_set`: after any program, `contains h f b ↔ b ∈` the plain set the spec
-  assigns to filter `f`; `extend_isolated`) are NOT proved here; they are checked on the real code by the
-  `filter` correspondence and its oracle. Proved are the two heap-level facts they rest on. -/
+  `Filter.run ops` executes a program of NewBytesFilter / NewBytesFilterString / Add / Extend / ExtendString
+  on the heap model (Go slices with capacity: `append` writes in place when `len < cap`).
+  `Spec.specRun ops` gives every filter its plain key list (keys passed at creation, keys added later,
+  keys inherited from the parent at Extend time). -/
 
-/-- PARTIAL (frame lemma for Go's `append`, including the in-place write when `len < cap`): appending `b`
-    to a well-formed slot header touches no filter; the resulting header is well-formed and sees the old
-    elements followed by `b`; it lives on the same backing array or on a freshly allocated one; and every
-    other well-formed header on a different backing array (or nil) sees exactly what it saw before. -/
-theorem filter_append_frame_partial (h : Filter.Heap) (s : Filter.Slice) (b : Bytes) (wf : Proof.Filter.slotWF h s) :
+/-- A BytesFilter behaves as a set: after ANY program, `Contains(b)` on filter `f` is true exactly when `b`
+    is in the key list the spec assigns to `f`. (The prefix bit masks are only a prefilter: the invariant
+    keeps, for every key of the set, each of its first min(len, threshold) position bits set, so a member is
+    never rejected; membership itself is decided by the scan of the hash slot.) -/
+theorem filter_is_set (ops : List Filter.Op) (f : Nat) (b : Bytes) :
+    Filter.contains (Filter.run ops) f b = true ↔ b ∈ (specRun ops).getD f [] :=
+  Proof.Filter.filter_is_set ops f b
+
+/-- Isolation, general form: what an existing filter `g` contains is changed only by `Add`s to `g` itself.
+    Whatever else happens afterwards — Adds to its parent, to filters extended from it, to its siblings,
+    further Extends, new filters — `Contains` on `g` answers as before. -/
+theorem extend_isolated (ops more : List Filter.Op) (g : Nat) (hg : g < (specRun ops).length)
+    (hop : ∀ op ∈ more, ∀ b, op ≠ .add g b) (b : Bytes) :
+    Filter.contains (Filter.run (ops ++ more)) g b = Filter.contains (Filter.run ops) g b :=
+  Proof.Filter.filter_isolated ops more g hg hop b
+
+/-- Isolation, the Extend case spelled out: the filter created by `Extend f bs` (its id is the number of
+    filters before) contains exactly the parent's keys at that moment plus `bs`, for ever, as long as nobody
+    Adds to the new filter itself — later Adds to the parent or to siblings do not show through. -/
+theorem extend_snapshot (ops more : List Filter.Op) (f : Nat) (bs : List Bytes) (hf : f < (specRun ops).length)
+    (hop : ∀ op ∈ more, ∀ b, op ≠ .add (specRun ops).length b) (b : Bytes) :
+    Filter.contains (Filter.run (ops ++ [.extend f bs] ++ more)) (specRun ops).length b = true ↔
+      b ∈ (specRun ops).getD f [] ++ bs :=
+  Proof.Filter.extend_snapshot ops more f bs hf hop b
+
+/-- non-vacuity + test (the scenario of the repaired defect): three keys in one hash bucket bring the
+    parent's slot to len 3 / cap 4; two children are extended from it and each gets one more key of the same
+    bucket; neither sees the other's key, the parent sees neither. -/
+example :
+    let k := fun (c : UInt8) => ([97, c] : Bytes)
+    let z : Bytes := [98, 32]
+    let ops : List Filter.Op := [.new [k 1, k 65, k 129], .extend 0 [], .extend 0 [], .add 1 (k 193), .add 2 z]
+    (Filter.bytesHash (k 1) % 64 = Filter.bytesHash (k 65) % 64 ∧ Filter.bytesHash (k 1) % 64 = Filter.bytesHash (k 129) % 64 ∧
+      Filter.bytesHash (k 1) % 64 = Filter.bytesHash (k 193) % 64 ∧ Filter.bytesHash (k 1) % 64 = Filter.bytesHash z % 64) ∧
+    specRun ops = [[k 1, k 65, k 129], [k 1, k 65, k 129, k 193], [k 1, k 65, k 129, z]] ∧
+    Filter.contains (Filter.run ops) 1 (k 193) = true ∧ Filter.contains (Filter.run ops) 2 (k 193) = false ∧
+    Filter.contains (Filter.run ops) 0 (k 193) = false ∧ Filter.contains (Filter.run ops) 2 z = true ∧
+    Filter.contains (Filter.run ops) 1 z = false ∧ Filter.contains (Filter.run ops) 0 z = false := by decide +kernel
+
+/-- the hypotheses of `extend_isolated` are satisfiable: after `[new, extend 0]`, Adds to the parent (filter
+    0) are not Adds to the child (filter 1) -/
+example : (1 : Nat) < (specRun [.new [[1]], .extend 0 []]).length ∧
+    ∀ op ∈ ([.add 0 [2]] : List Filter.Op), ∀ b, op ≠ .add 1 b := by
+  refine ⟨by decide, ?_⟩
+  intro op hop b
+  simp only [List.mem_singleton] at hop
+  subst hop
+  intro h; cases h
+
+/-- Heap-level lemma used above (frame lemma for Go's `append`, including the in-place write when
+    `len < cap`): appending `b` to a well-formed slot header touches no filter; the resulting header is
+    well-formed and sees the old elements followed by `b`; it lives on the same backing array or on a
+    freshly allocated one; and every other well-formed header on a different backing array (or nil) sees
+    exactly what it saw before. -/
+theorem filter_append_frame (h : Filter.Heap) (s : Filter.Slice) (b : Bytes) (wf : Proof.Filter.slotWF h s) :
     (Filter.appendSlice h s b).1.filts = h.filts ∧
     h.arrs.length ≤ (Filter.appendSlice h s b).1.arrs.length ∧
     Proof.Filter.slotWF (Filter.appendSlice h s b).1 (Filter.appendSlice h s b).2 ∧
@@ -203,12 +279,11 @@ example : Proof.Filter.slotWF ⟨[⟨2, [[1]]⟩], []⟩ (some (0, 1)) ∧
     (Filter.appendSlice ⟨[⟨2, [[1]]⟩], []⟩ (some (0, 1)) [2]).2 = some (0, 2) := by
   refine ⟨⟨by decide, by decide⟩, by decide⟩
 
-/-- PARTIAL (Extend's slot copy, as repaired): copying the parent's slots allocates one new array per slot;
-    the j-th new header lives on array `old length + j` (hence on no array that existed before, and the new
-    headers are pairwise on different arrays), is well-formed and sees exactly what the parent's j-th slot
-    saw; old arrays and all filters are unchanged. With the frame lemma this is why a later `Add` to the
-    parent, the child or a sibling cannot show through. -/
-theorem filter_extend_copy_partial (h : Filter.Heap) (slots : List Filter.Slice)
+/-- Heap-level lemma used above (Extend's slot copy, as repaired): copying the parent's slots allocates one
+    new array per slot; the j-th new header lives on array `old length + j` (hence on no array that existed
+    before, and the new headers are pairwise on different arrays), is well-formed and sees exactly what the
+    parent's j-th slot saw; old arrays and all filters are unchanged. -/
+theorem filter_extend_copy (h : Filter.Heap) (slots : List Filter.Slice)
     (hwf : ∀ s ∈ slots, Proof.Filter.slotWF h s) :
     ∃ X news, (Filter.copySlots h slots).1.arrs = h.arrs ++ X ∧ (Filter.copySlots h slots).1.filts = h.filts ∧
       (Filter.copySlots h slots).2 = news ∧ news.length = slots.length ∧ X.length = slots.length ∧
